@@ -9,6 +9,7 @@ PROPS = {
     "C02": "c02_times",
     "C03": "c03_operators",
     "C04": "c04_not",
+    "C05": "c05_captures",
 }
 
 
